@@ -25,29 +25,29 @@ const (
 
 // Prog is the loaded, type-checked and SSA-built program under analysis.
 type Prog struct {
-	Repo    string
-	Fset    *token.FileSet
-	Pkgs    []*packages.Package // all packages (deps included)
-	Lib     *packages.Package
-	CLI     *packages.Package
-	SSA     *ssa.Program
-	LibSSA  *ssa.Package
-	CLISSA  *ssa.Package
-	CG      *callgraph.Graph // VTA over CHA
-	CHA     *callgraph.Graph
-	Files   []string // source files of Lib and CLI seen by the loader
-	AllFns  map[*ssa.Function]bool
-	LibFns  []*ssa.Function // every function (incl. anonymous) whose package is Lib, sorted
-	CLIFns  []*ssa.Function
+	Repo   string
+	Fset   *token.FileSet
+	Pkgs   []*packages.Package // all packages (deps included)
+	Lib    *packages.Package
+	CLI    *packages.Package
+	SSA    *ssa.Program
+	LibSSA *ssa.Package
+	CLISSA *ssa.Package
+	CG     *callgraph.Graph // VTA over CHA
+	CHA    *callgraph.Graph
+	Files  []string // source files of Lib and CLI seen by the loader
+	AllFns map[*ssa.Function]bool
+	LibFns []*ssa.Function // every function (incl. anonymous) whose package is Lib, sorted
+	CLIFns []*ssa.Function
 	// Wrappers: synthetic method-value / interface wrappers around functions of Lib or CLI
 	Wrappers  []*ssa.Function
 	isWrapper map[*ssa.Function]bool
-	byName  map[string]*ssa.Function
-	Tags    string
-	NumPkgs int
-	eff     *Effects
-	nila    *NilAnalysis
-	bimaps  *biMaps
+	byName    map[string]*ssa.Function
+	Tags      string
+	NumPkgs   int
+	eff       *Effects
+	nila      *NilAnalysis
+	bimaps    *biMaps
 }
 
 // Load loads /repo's current working tree.
